@@ -367,14 +367,49 @@ Section VarsProofs.
     apply Nat.ltb_lt in H. now rewrite H0, H.
   Qed.
 
-  (* input: the k-th call yields the k-th value of the iterator, then the error "break" for ever *)
-  Lemma input_in_order : forall n (it : list V),
-    input_calls V n it = map (InputValue V) (firstn n it) ++ repeat (InputBreak V) (n - length it).
+  (* input: the k-th call yields the k-th item of the iterator — a value, or an error value as an error —
+     whatever the earlier items were (an error item does not stop later calls), then "break" for ever *)
+  Lemma input_in_order : forall n (it : list (input_item V)),
+    input_calls V n it = map (result_of_item V) (firstn n it) ++ repeat (InputBreak V) (n - length it).
   Proof.
     induction n as [| n IH]; intro it; [reflexivity |].
     destruct it as [| x r]; cbn [input_calls input_call].
     - rewrite IH. cbn. now rewrite firstn_nil, Nat.sub_0_r.
     - rewrite IH. reflexivity.
+  Qed.
+
+  Lemma input_after_error : forall (e : V) before after n,
+    input_calls V (length before + 1 + n) (before ++ ItErr V e :: after)
+    = map (result_of_item V) before ++ InputError V e :: input_calls V n after.
+  Proof.
+    induction before as [| b r IH]; intros after n; cbn [length Nat.add app input_calls input_call map].
+    - reflexivity.
+    - f_equal. apply IH.
+  Qed.
+
+  (* opcall: argument i of the call is args[i] of the callback *)
+  Lemma push_in_code_order_eq : forall (args stack : list V), push_in_code_order V args stack = args ++ stack.
+  Proof.
+    intros args stack. unfold push_in_code_order. rewrite <- fold_left_rev_right, rev_involutive.
+    induction args; cbn; [reflexivity | now f_equal].
+  Qed.
+
+  Lemma opcall_args_in_order : forall (x : V) args rest,
+    opcall_pop V (length args) (x :: push_in_code_order V args rest) = Some (x, args, rest).
+  Proof.
+    intros x args rest. rewrite push_in_code_order_eq. cbn [opcall_pop].
+    assert (L : Nat.leb (length args) (length (args ++ rest)) = true) by (apply Nat.leb_le; rewrite app_length; lia).
+    rewrite L, firstn_app, Nat.sub_diag, firstn_all, firstn_O, app_nil_r.
+    rewrite skipn_app, Nat.sub_diag, skipn_all, skipn_O. reflexivity.
+  Qed.
+
+  (* every enumerated vector takes its i-th component from the i-th generator; there are prod |g_i| of them *)
+  Lemma enum_args_components : forall gens v, In v (enum_args V gens) -> Forall2 (fun a g => In a g) v gens.
+  Proof.
+    induction gens as [| g r IH]; intros v H; cbn in H.
+    - destruct H as [<- | []]. constructor.
+    - apply in_flat_map in H. destruct H as [tl [Ht Hv]]. apply in_map_iff in Hv. destruct Hv as [a [<- Ha]].
+      constructor; [exact Ha | now apply IH].
   Qed.
 End VarsProofs.
 
